@@ -227,6 +227,12 @@ func oldContent(old string) ([]byte, os.FileMode) {
 		return content("OLD", "small")[:9], 0o644
 	case "mode":
 		return content("OLD", "small")[:9], 0o640
+	case "readonly": // present, write-protected
+		return content("OLD", "small")[:9], 0o444
+	case "ro0400":
+		return content("OLD", "small")[:9], 0o400
+	case "ro0555":
+		return content("OLD", "small")[:9], 0o555
 	}
 	return nil, 0
 }
